@@ -130,6 +130,7 @@ struct DocGen {
             s += "<!DOCTYPE doc [\n";
             std::vector<std::string> nm = out.names;
             for (auto& n : nm) s += "<!ATTLIST " + n + " id ID #IMPLIED ref IDREF #IMPLIED>\n";
+            s += "<!NOTATION gif SYSTEM \"viewer.exe\">\n<!ENTITY pic SYSTEM \"pic.gif\" NDATA gif>\n";
             s += "]>\n";
         }
         if (c.comments && g.chance(1, 4)) s += "<!-- prolog comment -->\n";
@@ -181,7 +182,8 @@ inline const std::vector<std::string>& allFeatures() {
         "fmtnum", "fmtnum-df", "arith", "strfn", "copyof", "copy", "rtf", "nodeset", "calltmpl", "choose", "elemattr", "attrset",
         "lre", "message", "modes", "sort2", "comment-pi", "exslt-set", "exslt-math", "exslt-str", "genid", "lang", "sysprop", "param", "ifbool",
         "union", "preds", "valnum", "apply-imports", "text-nodes", "ns-axis", "doctype-node", "attr-nodes", "number-value", "bigfmt", "xalan-ext", "docfn", "avt-ns", "extfn", "paramuse", "gate", "num-gate", "sortlang", "num-value", "lazyvar", "manyrtf", "deeprec", "padsupp", "top-nodes", "doe", "sort-gate", "bignum-alpha",
-        "num-punct", "num-exotic", "ext-evaluate", "rtf-key", "key-prefixed", "key-variant"
+        "num-punct", "num-exotic", "ext-evaluate", "rtf-key", "key-prefixed", "key-variant",
+        "nsalias", "withparam", "fmtnum-pat", "doc2", "unparsed-entity", "nsfix", "numconv", "keynodeset"
     };
     return f;
 }
@@ -244,7 +246,7 @@ struct SSGen {
         if (on("xalan-ext")) perNode += o("xalan-ext", vo("count(xalan:distinct(*/@k))") + "," + vo("count(xalan:difference(*, *[1]))") + "," + vo("count(xalan:intersection(*, *[@v]))") + "," + vo("xalan:hasSameNodes(*, *)") + "," + vo("count(xalan:evaluate('*'))"));
         if (on("genid")) perNode += o("genid", vo("generate-id(.) = generate-id(//*[@id = current()/@id])") + "," + vo("generate-id(.) = generate-id(..)") + "," + vo("string-length(generate-id(.)) &gt; 0"));
         if (on("lang")) perNode += o("lang", vo("lang('en')") + "," + vo("lang('fr')") + "," + vo("ancestor-or-self::*[@xml:lang][1]/@xml:lang"));
-        if (on("sysprop")) perNode += "<xsl:if test=\"not(preceding::*) and not(ancestor::*)\">" + o("sysprop", vo("system-property('xsl:version')") + "," + vo("function-available('exsl:node-set')") + "," + vo("function-available('nope:x')") + "," + vo("element-available('xsl:if')") + "," + vo("element-available('xsl:nope')")) + "</xsl:if>";
+        if (on("sysprop")) perNode += "<xsl:if test=\"not(preceding::*) and not(ancestor::*)\">" + o("sysprop", vo("system-property('xsl:version')") + "," + vo("function-available('exsl:node-set')") + "," + vo("function-available('nofn:x')") + "," + vo("element-available('xsl:if')") + "," + vo("element-available('xsl:nope')")) + "</xsl:if>";
         if (on("param")) { perNode += "<xsl:if test=\"not(ancestor::*)\">" + o("param", vo("$P1") + "|" + vo("$P2 + 1") + "|" + vo("string-length($P1)")) + "</xsl:if>"; }
         if (on("extfn")) perNode += "<xsl:if test=\"function-available('ext:sq')\">" + o("extfn", vo("ext:sq(@v)") + "," + vo("ext:sq(count(*))")) + "</xsl:if>";
         if (on("paramuse")) perNode += o("paramuse", vo("concat($P1, '/', @k)") + "|" + vo("$P2 * 2") + "|" + vo("boolean($P1)"));
@@ -271,6 +273,22 @@ struct SSGen {
             perNode += o("key-prefixed", vo("count(key('kp:k', @k))") + ":" + vo("key('kp:k', @k)[1]/@id") + ":" + vo("count(key('kq:k', 5))") + ":" + vo("count(key('kp:k', @v))")); }
         if (on("key-variant")) { static const char* const use[] = { "@k", "@v", "concat(@k, @v)" }; top += std::string("<xsl:key name=\"kvv\" match=\"*\" use=\"") + use[c.keyVariant % 3] + "\"/>";
             perNode += o("key-variant", vo("count(key('kvv', @k))") + ":" + vo("count(key('kvv', @v))") + ":" + vo("key('kvv', concat(@k, @v))[last()]/@id")); }
+        // literal result elements in an aliased namespace
+        if (on("nsalias")) { top += "<xsl:namespace-alias stylesheet-prefix=\"ax\" result-prefix=\"ar\"/>"; perNode += "<xsl:if test=\"count(*) = 1\"><o f=\"nsalias\" n=\"{@id}\"><ax:gen ax:at=\"{@k}\" plain=\"1\"><ax:inner/><xsl:value-of select=\"name()\"/></ax:gen></o></xsl:if>"; }
+        // parameters passed through apply-templates and call-template, defaults, shadowing
+        if (on("withparam")) { extraTemplates += "<xsl:template match=\"*\" mode=\"wp\"><xsl:param name=\"a\" select=\"'da'\"/><xsl:param name=\"b\"><dflt/></xsl:param><xsl:param name=\"depth\" select=\"0\"/><xsl:value-of select=\"concat('[', $a, '/', count(exsl:node-set($b)/*), '/', $depth, ']')\"/><xsl:if test=\"$depth &lt; 3\"><xsl:apply-templates select=\"*[1]\" mode=\"wp\"><xsl:with-param name=\"a\" select=\"concat($a, @k)\"/><xsl:with-param name=\"depth\" select=\"$depth + 1\"/><xsl:with-param name=\"unused\" select=\"//*\"/></xsl:apply-templates></xsl:if></xsl:template>";
+            perNode += "<o f=\"withparam\" n=\"{@id}\"><xsl:apply-templates select=\".\" mode=\"wp\"><xsl:with-param name=\"b\"><x/><y/></xsl:with-param></xsl:apply-templates>|<xsl:apply-templates select=\"*[2]\" mode=\"wp\"/></o>"; }
+        // format-number patterns: negative sub-pattern, percent, per-mille, quoted literals, many digits
+        if (on("fmtnum-pat")) perNode += o("fmtnum-pat", vo("format-number(@v - 20.5, '#,##0.0#;(#,##0.0#)')") + "|" + vo("format-number(@v div 40, '#0.0%')") + "|" + vo("format-number(@v div 40, '#0.0&#x2030;')") + "|" + vo("format-number(@v, &quot;000'x'&quot;)") + "|" + vo("format-number(@v * 1234567.891, '###,###,##0.000000')") + "|" + vo("format-number(@v, '#')") + "|" + vo("format-number(-0.4, '0')") + "|" + vo("format-number(1 div 0, '0')") + "|" + vo("format-number(@v, '0.0;-0.0')"));
+        // document() with a base node, with a node-set, and the stylesheet itself
+        if (on("doc2") && c.docFn) perNode += "<xsl:if test=\"count(preceding::*) &lt; 2\">" + o("doc2", vo("count(document('aux.xml', /)//x)") + "," + vo("count(document(*/@nosuch)//x)") + "," + vo("count(document('')/xsl:stylesheet/xsl:template)") + "," + vo("count(document('aux.xml')//x | document('aux.xml')//x)") + "," + vo("document('aux.xml')//x[@id='x2']") + "," + vo("count(document(document('aux.xml')/aux/y/@none))")) + "</xsl:if>";
+        if (on("unparsed-entity")) perNode += "<xsl:if test=\"not(ancestor::*)\">" + o("unparsed-entity", vo("contains(unparsed-entity-uri('pic'), 'pic.gif')") + "," + vo("string-length(unparsed-entity-uri('nosuch'))")) + "</xsl:if>";
+        // namespace fix-up: prefixes that collide, attributes that need a generated prefix
+        if (on("nsfix")) perNode += "<xsl:if test=\"count(*) &lt; 2\"><o f=\"nsfix\" n=\"{@id}\"><xsl:element name=\"p1:z\" namespace=\"urn:x-other\"><xsl:attribute name=\"p1:a\" namespace=\"urn:x-third\">1</xsl:attribute><xsl:attribute name=\"b\" namespace=\"urn:x-fourth\">2</xsl:attribute><p1:inner xmlns:p1=\"urn:x-fifth\"/><xsl:element name=\"z\" namespace=\"\"/></xsl:element><xsl:copy><xsl:attribute name=\"p2:c\" namespace=\"urn:x-ns1\">3</xsl:attribute></xsl:copy></o></xsl:if>";
+        // conversions at the edges of the number type
+        if (on("numconv")) perNode += o("numconv", vo("string(0 div 0)") + "," + vo("string(-1 div 0)") + "," + vo("string(-0 * 1)") + "," + vo("string(0.1 + 0.2)") + "," + vo("string(1 div 3)") + "," + vo("string(123456789012)") + "," + vo("string(0.000001)") + "," + vo("string(1000000 * 1000000 * 1000000 * 1000)") + "," + vo("number('  -.5 ')") + "," + vo("number('1.')") + "," + vo("number('+1')") + "," + vo("number(true()) + number(@nosuch = 1)") + "," + vo("round(-0.5)") + "," + vo("round(2.5)") + "," + vo("floor(-0.1)") + "," + vo("substring('12345', 0 div 0, 3)") + "," + vo("substring('12345', -1 div 0, 1 div 0)") + "," + vo("boolean('false')") + "," + vo("string(@v = */@v)") + "," + vo("string(*/@v &gt; 10)"));
+        // key() and id() with node-set arguments; a key whose use expression yields several values
+        if (on("keynodeset")) { top += "<xsl:key name=\"kns\" match=\"*\" use=\"@k | @v\"/>"; perNode += o("keynodeset", vo("count(key('kns', */@k))") + ":" + vo("count(key('kns', @k | @v))") + ":" + vo("count(id(*/@ref))") + ":" + vo("count(key('kns', 'k1') | key('kns', 'k2'))")); }
         // many result tree fragments alive at the same time (arena blocks of the fragment allocators hold 10)
         if (on("manyrtf")) { std::string vars, uses; for (int i = 0; i < 13; ++i) { std::string n = "mr" + std::to_string(i); vars += "<xsl:variable name=\"" + n + "\"><r" + std::to_string(i) + "><xsl:value-of select=\"@id\"/></r" + std::to_string(i) + ">t" + std::to_string(i) + "</xsl:variable>"; uses += "<xsl:value-of select=\"string-length($" + n + ")\"/>,"; }
             perNode += "<xsl:if test=\"count(preceding::*) mod 4 = 0\">" + vars + "<o f=\"manyrtf\" n=\"{@id}\">" + uses + "<xsl:copy-of select=\"$mr12\"/></o></xsl:if>"; }
@@ -314,10 +332,10 @@ struct SSGen {
         // ---- assemble ----
         std::string s = "<?xml version=\"1.0\"?>\n<xsl:stylesheet version=\"1.0\" xmlns:xsl=\"http://www.w3.org/1999/XSL/Transform\"";
         s += std::string(" xmlns:p1=\"") + NS1 + "\" xmlns:p2=\"" + NS2 + "\"";
-        s += " xmlns:xalan=\"http://xml.apache.org/xalan\" xmlns:exsl=\"http://exslt.org/common\" xmlns:set=\"http://exslt.org/sets\" xmlns:math=\"http://exslt.org/math\" xmlns:str=\"http://exslt.org/strings\" xmlns:nofn=\"urn:x-nofn\" xmlns:ext=\"urn:x-ext\" xmlns:dyn=\"http://exslt.org/dynamic\"";
+        s += " xmlns:xalan=\"http://xml.apache.org/xalan\" xmlns:exsl=\"http://exslt.org/common\" xmlns:set=\"http://exslt.org/sets\" xmlns:math=\"http://exslt.org/math\" xmlns:str=\"http://exslt.org/strings\" xmlns:nofn=\"urn:x-nofn\" xmlns:ext=\"urn:x-ext\" xmlns:dyn=\"http://exslt.org/dynamic\" xmlns:ax=\"urn:x-alias-ss\" xmlns:ar=\"urn:x-alias-result\"";
         s += std::string(" xmlns:kp=\"urn:x-key-") + (c.keyVariant % 2 ? "1" : "0") + "\" xmlns:kq=\"urn:x-key-" + (c.keyVariant % 2 ? "0" : "1") + "\"";
         if (c.dupExtPrefix) s += " xmlns:xe1=\"urn:x-extelem\" xmlns:xe2=\"urn:x-extelem\" extension-element-prefixes=\"xe1 xe2\"";
-        s += " exclude-result-prefixes=\"xalan exsl set math str nofn ext p2 dyn kp kq\">\n";
+        s += " exclude-result-prefixes=\"xalan exsl set math str nofn ext p2 dyn kp kq ax\">\n";
         if (c.useImport) {
             s += "<xsl:import href=\"imp1.xsl\"/>\n";
             out.resources["imp1.xsl"] = "<?xml version=\"1.0\"?><xsl:stylesheet version=\"1.0\" xmlns:xsl=\"http://www.w3.org/1999/XSL/Transform\"><xsl:template match=\"*\" mode=\"imp\">imp:<xsl:value-of select=\"@id\"/></xsl:template><xsl:template match=\"*[@k='k1']\" mode=\"imp\" priority=\"3\">impk1:<xsl:value-of select=\"@id\"/></xsl:template><xsl:variable name=\"IMPV\" select=\"'from-import'\"/></xsl:stylesheet>";
